@@ -366,6 +366,23 @@ func (r *runner) materialize(dir string, pc *pCase, hook bodyHook) error {
 	if err := os.WriteFile(filepath.Join(dir, "gleece.alt.config.json"), alt, 0o644); err != nil {
 		return err
 	}
+	// the same configuration with another routing engine: the specification must not depend on it (C13)
+	ecfg := cfg
+	engs := []string{"gin", "echo", "mux", "chi", "fiber"}
+	for i, e := range engs {
+		if e == cfg.Engine {
+			ecfg.Engine = engs[(i+2)%len(engs)]
+		}
+	}
+	if ecfg.Engine != cfg.Engine {
+		eng, err := renderConfig(ecfg, "", "./dist/openapi.engine.json")
+		if err != nil {
+			return err
+		}
+		if err := os.WriteFile(filepath.Join(dir, "gleece.engine.config.json"), eng, 0o644); err != nil {
+			return err
+		}
+	}
 	routesOut, specOut := effOut(cfg)
 	for p, content := range map[string]string{routesOut: staleRoutes, specOut: staleSpec} {
 		full := filepath.Join(dir, p)
@@ -478,6 +495,11 @@ func (r *runner) runCase(work string, pc *pCase, plan pipePlan, keep bool) *case
 			extra = []string{p}
 		}
 		rec.Runs[fmt.Sprintf("repeat%d", i)] = r.runCLIEnv(dir, "generate spec-and-routes", "gleece.config.json", routesOut, specOut, "", extra)
+	}
+	if plan.Repeat > 0 {
+		if _, err := os.Stat(filepath.Join(dir, "gleece.engine.config.json")); err == nil {
+			rec.Runs["engine"] = r.runCLI(dir, "generate spec", "gleece.engine.config.json", "", "./dist/openapi.engine.json", "")
+		}
 	}
 	for i, o := range plan.Orders {
 		rec.Runs[fmt.Sprintf("order%d", i)] = r.runCLI(dir, "generate spec-and-routes", "gleece.config.json", routesOut, specOut, o)
